@@ -8,6 +8,8 @@ import (
 	"encoding/base64"
 	"encoding/json"
 	"fmt"
+	"os"
+	"path/filepath"
 	"reflect"
 	"strconv"
 	"strings"
@@ -210,6 +212,9 @@ func parseRun(c *core.Ctx) bool {
 		}
 	}
 
+	if c.Prop == "C07" || c.Prop == "C11" {
+		total.Merge(fmtBinarySample(c))
+	}
 	reportAll(c, total)
 	inconclusive := total.Inconclusive
 	for _, d := range deaths {
@@ -945,4 +950,64 @@ func parseReplay(c *core.Ctx, v core.Violation) []core.Violation {
 		nv.Key = strconv.Quote(string(raw))
 	}
 	return []core.Violation{*nv}
+}
+
+// fmtBinarySample drives `spok --fmt` end to end on generator-produced, exec-free,
+// side-effect free programs in random layouts: what --show and --vars report must be
+// the same before and after (C07), and a second --fmt must leave the file untouched (C11).
+func fmtBinarySample(c *core.Ctx) *core.ShardResult {
+	n := c.Q(150, 1500)
+	out := make([]*core.ShardResult, n)
+	core.ParallelFor(n, c.NCPU, func(i int) {
+		res := core.NewShardResult()
+		out[i] = res
+		r := c.Rng(core.StrKey("fmt-binary"), uint64(i))
+		p := c19Prog(r)
+		lay := gen.Layout{C: gen.RandChooser{R: r}, EOL: []string{"\n", "\n", "\r\n"}[r.Intn(3)]}
+		text := lay.Write(p)
+		sb := newSandbox(c.TempDir("fmtb-"))
+		defer os.RemoveAll(sb.Root)
+		path := filepath.Join(sb.Proj, "spokfile")
+		_ = os.WriteFile(path, []byte(text), 0o644)
+		run := func(args ...string) core.Invocation {
+			res.Evaluations++
+			return core.RunSpok(core.SpokOpts{Bin: c.SpokRace(), Dir: sb.Proj, Home: sb.Home, Args: args})
+		}
+		bad := func(clause, format string, args ...any) {
+			res.Violate(core.Violation{Property: c.Prop, Clause: clause, Key: "binary:" + strconv.Quote(text), Engine: "binary",
+				Case: core.JSON(mkCase("binary", text, -1)), Detail: fmt.Sprintf(format, args...) + "\nspokfile: " + core.Trunc(strconv.Quote(text), 600)})
+		}
+		show1, vars1 := run("--show"), run("--vars")
+		f1 := run("--fmt")
+		if show1.Exit != 0 || vars1.Exit != 0 || f1.Exit != 0 {
+			return // not loadable (e.g. join with an identifier argument): nothing to compare
+		}
+		b1, _ := os.ReadFile(path)
+		show2, vars2 := run("--show"), run("--vars")
+		res.Count("binary_fmt_cases", 1)
+		if c.Prop == "C07" {
+			if show2.Exit != 0 || vars2.Exit != 0 {
+				bad("binary-fmt-keeps-file-working", "--show/--vars worked before --fmt and fail after it: %s %s", core.Trunc(show2.Stderr, 200), core.Trunc(vars2.Stderr, 200))
+				return
+			}
+			if show1.Stdout != show2.Stdout || vars1.Stdout != vars2.Stdout {
+				bad("binary-fmt-same-listing", "--show/--vars differ after --fmt:\nbefore %q %q\nafter  %q %q", show1.Stdout, vars1.Stdout, show2.Stdout, vars2.Stdout)
+				return
+			}
+		}
+		if c.Prop == "C11" {
+			f2 := run("--fmt")
+			b2, _ := os.ReadFile(path)
+			if f2.Exit != 0 || string(b1) != string(b2) {
+				bad("binary-fmt-idempotent", "a second --fmt changed the file again (exit %d): %q -> %q", f2.Exit, core.Trunc(string(b1), 300), core.Trunc(string(b2), 300))
+				return
+			}
+		}
+		res.Distinct(core.Hash64("binary", text))
+	})
+	total := core.NewShardResult()
+	for _, o := range out {
+		total.Merge(o)
+	}
+	return total
 }
